@@ -341,6 +341,7 @@ type world struct {
 	live      map[string]bool
 	st        stats
 	fail      *failure
+	stored    map[*pb.Notification]*pb.Notification // stored notification object -> its content when first seen at a quiescent point
 	foreign   bool // a writer stored a notification through another target's entry point (WOp.Via)
 }
 
@@ -2008,7 +2009,41 @@ func diffMaps(want, got map[string]string) string {
 
 // checkAll evaluates the per-subscription oracles at a quiescent point.
 // drained: every gate was released and every subscriber given credit.
+// checkStored: a notification object the cache stores is never written to - the cache replaces a leaf's value by
+// another object, and whoever serves subscribers works on copies (duplicate counts are per subscriber). A stored
+// object whose content differs from what it was at an earlier quiescent point means that the cache no longer holds
+// the update it accepted: no subscriber's replay can equal it, and an identical re-send is no longer "identical".
+func (w *world) checkStored() {
+	if w.stored == nil {
+		w.stored = map[*pb.Notification]*pb.Notification{}
+	}
+	now := map[*pb.Notification]*pb.Notification{}
+	n := 0
+	for i := 0; i < w.sc.Targets; i++ {
+		name := targetName(i)
+		if !w.live[name] {
+			continue
+		}
+		w.c.Query(name, []string{"*"}, func(_ []string, _ *ctree.Leaf, v interface{}) error {
+			if nt, ok := v.(*pb.Notification); ok && n < 3000 {
+				n++
+				if was, seen := w.stored[nt]; seen {
+					if !proto.Equal(was, nt) {
+						w.failf(w.prop, "step %d: a notification stored in the cache was modified in place while subscribers were served (the cache replaces a leaf's value, it never edits the stored update): it was %v at an earlier quiescent point and reads %v now", w.step, was, nt)
+					}
+					now[nt] = was
+				} else {
+					now[nt] = proto.Clone(nt).(*pb.Notification)
+				}
+			}
+			return nil
+		})
+	}
+	w.stored = now
+}
+
 func (w *world) checkAll(drained bool) {
+	w.checkStored()
 	if w.acl != nil && w.acl.flipped() {
 		return // grants changed while streams were open: only the trace monitor applies (see aclflip)
 	}
